@@ -72,8 +72,9 @@ C08_DelayStep(cfg, pods, podsN, pass, nowN) ==
     \A p \in NewPods(pods, podsN) : p.retry > 0 =>
         \A x \in RefsOf(pass.j, p.idx) : x.fin # 0 /\ nowN >= x.fin + cfg.delay
 \* creation gates, judged on what the creating pass could see
-C08_GatesStep(cfg, pods, podsN, pass) ==
+C08_GatesStep(cfg, pods, podsN, pass, succRec) ==
     \A p \in NewPods(pods, podsN) :
+        /\ p.idx \notin succRec      \* the index has a task whose success the controller has recorded in the API
         /\ pass.j.ex /\ pass.j.started /\ pass.j.kill = 0 /\ ~pass.j.adm /\ ~pass.j.del
         /\ ~SucceededRec(pass.j, p.idx)
         /\ ~DecidedRec(cfg, pass.j)
@@ -84,6 +85,8 @@ C08_GatesStep(cfg, pods, podsN, pass) ==
 C09_KeepStep(job, jobN) ==
     (job.ex /\ jobN.ex) => \A r \in Range(job.refs) : \E x \in Range(jobN.refs) :
         x.name = r.name /\ (r.run # 0 => x.run = r.run) /\ (r.fin # 0 => x.fin # 0)
+                        \* a recorded success is a last known state for good (a Job being deleted re-labels the tasks it removes)
+                        /\ ((r.res = "Succeeded" /\ ~jobN.del) => x.res = "Succeeded")
 C09_NotLost(job, pods) ==
     job.ex => \A r \in Range(job.refs) : \A p \in Mine(pods) :
         (p.name = r.name /\ Alive(p) /\ p.del = 0) => (r.fin = 0 /\ r.state # "DeletedFinalStateUnknown")
